@@ -61,3 +61,15 @@ ENTRY["level_text"] += (" The HTTP door itself (core/validatorapi/router.go: New
     "header's and the encoding the Content-Type's (router_version_from_header), that a malformed request or one bad element delivers "
     "nothing (router_rejects_malformed_partial, router_no_call_on_error, router_batch_atomic) and how a SingleAttestation's validator is "
     "looked up (single_attestation_conversion); tied by stream router (the real router over httptest with the real Component).")
+
+# Fifth session: what sits around verification in core/validatorapi/validatorapi.go — the lookup tables built at start-up
+# (app.go's pubshares / allPubSharesByKey, NewComponent's closures), the duties endpoints that swap validator keys for this
+# node's public shares, Validators / convertValidators: Model/VapiMaps.lean, theorems Props/C10VapiMaps.lean, stream vapimaps
+# (real NewComponent, its closures, the endpoints over a scripted beacon node and the real DutiesCache).
+from vlib import snippet_C10vapimaps as _vm
+ENTRY["streams"].append(_vm.STREAM)
+ENTRY["lean_props_extra"].append(_vm.EXTRA_LEAN)
+ENTRY["monitor_sigs"] = ENTRY["monitor_sigs"] + [m for m in _vm.MONITOR_SIGS if m not in ENTRY["monitor_sigs"]]
+ENTRY["trusted_base"] = ENTRY["trusted_base"] + _vm.TRUSTED_BASE
+ENTRY["assumptions"] = ENTRY["assumptions"] + _vm.ASSUMPTIONS
+ENTRY["level_text"] += _vm.LEVEL_TEXT
